@@ -83,6 +83,13 @@ func (e *Engine) VerifyFunction(key string, opts VerifyOpts) (*FuncResult, error
 			vc.closureVars[fv.Name()] = EV{V: freeVars[i], T: pt}
 		}
 	}
+	if ct != nil {
+		for _, cl := range ct.Musts {
+			k := "ghost$must:" + cl.Label
+			st.heap[k] = p.False()
+			vc.heapSort[k] = SBool
+		}
+	}
 	vc.entry = st.clone()
 	vc.assumeAxioms(st)
 	if ct != nil {
@@ -126,6 +133,14 @@ func (e *Engine) VerifyFunction(key string, opts VerifyOpts) (*FuncResult, error
 		for _, cl := range ct.Ensures {
 			g := post.bool(post.eval(cl.Expr), cl.Expr)
 			vc.oblige(exit, "post", fmt.Sprint(cl.Idx), "postcondition: "+cl.Text, g, cl.Tags, fn.Pos(), false)
+		}
+		for _, cl := range ct.Musts {
+			done, ok := exit.heap["ghost$must:"+cl.Label]
+			if !ok {
+				done = vc.P.False()
+			}
+			cond := post.bool(post.eval(cl.Expr), cl.Expr)
+			vc.oblige(exit, "must", cl.Label+"."+fmt.Sprint(cl.Idx), "the step at "+cl.Label+" is executed on every path to an exit with: "+cl.Text, vc.P.Implies(cond, done), cl.Tags, fn.Pos(), false)
 		}
 		for _, cl := range ct.ObjInv {
 			inv := vc.contractCtx(exit, vc.entry, ct, fn, fn.Signature, nil, args)
